@@ -86,6 +86,40 @@ func (w *Writer) Write(p []byte) (int, error) {
 	return len(p), nil
 }
 
+// FlushWriter is a Writer that also has the Flush method of buffered writers; FlushErr makes
+// Flush report the earlier write failure, otherwise it returns nil whatever happened before.
+type FlushWriter struct {
+	*Writer
+	FlushErr bool
+	Flushes  int
+}
+
+func (f *FlushWriter) Flush() error {
+	f.Flushes++
+	if f.FlushErr && f.Writer.Failed > 0 {
+		return ErrInjected
+	}
+	return nil
+}
+
+// StringWriter is a Writer that also implements io.StringWriter (io.WriteString prefers it).
+type StringWriter struct{ *Writer }
+
+func (s *StringWriter) WriteString(x string) (int, error) { return s.Writer.Write([]byte(x)) }
+
+// Shaped returns w dressed with the optional interface named by shape ("" = plain io.Writer).
+func Shaped(w *Writer, shape string) io.Writer {
+	switch shape {
+	case "flush-nil":
+		return &FlushWriter{Writer: w}
+	case "flush-err":
+		return &FlushWriter{Writer: w, FlushErr: true}
+	case "stringwriter":
+		return &StringWriter{w}
+	}
+	return w
+}
+
 // Reader is a fault-injecting io.Reader over a fixed input.
 type Reader struct {
 	Data     []byte
